@@ -53,7 +53,15 @@ type c13Sent struct {
 	delivered  bool
 }
 
+type c13RelCheck struct {
+	idx int
+	got []k5routed
+}
+
 type c13Out struct {
+	lines, want  []string
+	rels         []c13RelCheck
+	bySeq        map[int64]*c13Sent
 	inconclusive bool
 	overtakes    int
 	viol         map[string]string // signature -> description (first)
@@ -153,11 +161,7 @@ func c13run(c *Ctx, sc c13Scenario) c13Out {
 	released := map[int]int{} // link id -> frames released
 	epoch := 0
 	dropped := map[int]bool{}
-	type relCheck struct {
-		idx int
-		got []k5routed
-	}
-	var rels []relCheck
+	var rels []c13RelCheck
 	var unhold []func()
 	timeout := 3 * time.Second
 
@@ -182,7 +186,7 @@ func c13run(c *Ctx, sc c13Scenario) c13Out {
 			// only wait until B has consumed the bytes; workers may be stalled
 			dl := time.Now().Add(timeout)
 			for l.consumed() < fs[r+n-1].End && time.Now().Before(dl) {
-				time.Sleep(100 * time.Microsecond)
+				k5wait(2 * time.Millisecond)
 			}
 			time.Sleep(300 * time.Microsecond)
 			return true
@@ -192,7 +196,7 @@ func c13run(c *Ctx, sc c13Scenario) c13Out {
 			return false
 		}
 		got := p.b.snapshot()
-		rels = append(rels, relCheck{idx, append([]k5routed(nil), got[before:]...)})
+		rels = append(rels, c13RelCheck{idx, append([]k5routed(nil), got[before:]...)})
 		return true
 	}
 
@@ -303,7 +307,7 @@ func c13run(c *Ctx, sc c13Scenario) c13Out {
 			p.links[lid].a.Close()
 			dl := time.Now().Add(timeout)
 			for len(p.poolIDs()) == len(pool) && time.Now().Before(dl) {
-				time.Sleep(100 * time.Microsecond)
+				time.Sleep(50 * time.Microsecond)
 			}
 			np := p.poolIDs()
 			if len(np) == len(pool) {
@@ -404,19 +408,19 @@ func c13run(c *Ctx, sc c13Scenario) c13Out {
 		}
 	}
 
-	// ---- correspondence with the model -----------------------------------------------------------
-	res, err := Model("link", lines)
-	if err != nil {
-		out.disagree = "link driver: " + err.Error()
-		return out
-	}
+	out.lines, out.want, out.rels, out.bySeq = lines, want, rels, bySeq
+	return out
+}
+
+// c13compare checks one scenario's protocol against the model's answers (res is aligned with o.lines).
+func c13compare(o *c13Out, res []string) string {
+	lines, want, bySeq := o.lines, o.want, o.bySeq
 	for i := range lines {
 		if want[i] != "" && res[i] != want[i] {
-			out.disagree = fmt.Sprintf("line %d %q: model %q, implementation %q", i, lines[i], res[i], want[i])
-			return out
+			return fmt.Sprintf("line %d %q: model %q, implementation %q", i, lines[i], res[i], want[i])
 		}
 	}
-	for _, rc := range rels {
+	for _, rc := range o.rels {
 		// multiset of seqs equal; per-pair projection equal for pairs with a non-zero wire byte
 		var ms []string
 		if res[rc.idx] != "-" {
@@ -430,8 +434,7 @@ func c13run(c *Ctx, sc c13Scenario) c13Out {
 		sort.Strings(a)
 		sort.Strings(b)
 		if strings.Join(a, ",") != strings.Join(b, ",") {
-			out.disagree = fmt.Sprintf("line %d %q: model routed {%s}, implementation {%s}", rc.idx, lines[rc.idx], res[rc.idx], strings.Join(is, ","))
-			return out
+			return fmt.Sprintf("line %d %q: model routed {%s}, implementation {%s}", rc.idx, lines[rc.idx], res[rc.idx], strings.Join(is, ","))
 		}
 		proj := func(xs []string) map[string][]string {
 			m := map[string][]string{}
@@ -450,12 +453,11 @@ func c13run(c *Ctx, sc c13Scenario) c13Out {
 		pm, pi := proj(ms), proj(is)
 		for k, v := range pm {
 			if strings.Join(v, ",") != strings.Join(pi[k], ",") {
-				out.disagree = fmt.Sprintf("line %d %q pair %s: model order %v, implementation order %v", rc.idx, lines[rc.idx], k, v, pi[k])
-				return out
+				return fmt.Sprintf("line %d %q pair %s: model order %v, implementation order %v", rc.idx, lines[rc.idx], k, v, pi[k])
 			}
 		}
 	}
-	return out
+	return ""
 }
 
 func runC13(c *Ctx) {
@@ -463,8 +465,36 @@ func runC13(c *Ctx) {
 	r.Rule = "K5 scenarios: pool 1..4 (+ up to 2 joined links), 1-3 sender and 1-3 receiver ids per scenario drawn by residue mod 255 " +
 		"(boundaries 0,1,2,127,253,254, uniform otherwise; magnitudes 10^3, 2^32, 2^63, 2^64-1), 20..80 ops (send / release k frames of one link / join / link loss), " +
 		"harness-decided delivery order; non-trivial = at least one frame was routed before an earlier-sent frame of another link; distinct by the op list"
-	known := c13Known(c)
+	type pend struct {
+		sc c13Scenario
+		o  c13Out
+	}
+	var pending []pend
+	defer func() {
+		// one driver process for all scenarios (every scenario starts with `init`, which resets the model)
+		var all []string
+		for _, p := range pending {
+			all = append(all, p.o.lines...)
+		}
+		res, err := Model("link", all)
+		if err != nil {
+			r.Disagree("link.driver", err.Error(), nil)
+			return
+		}
+		off := 0
+		for i := range pending {
+			o := &pending[i].o
+			if d := c13compare(o, res[off:off+len(o.lines)]); d != "" {
+				r.Disagree("K5 Model.Link ~ proto.connection", d, pending[i].sc)
+				return
+			}
+			off += len(o.lines)
+		}
+	}()
 	report := func(sc c13Scenario, o c13Out, mainSweep bool) {
+		if o.disagree == "" && o.lines != nil {
+			pending = append(pending, pend{sc, o})
+		}
 		for sig, what := range o.viol {
 			r.Violation(sig, what, sc)
 		}
@@ -484,9 +514,8 @@ func runC13(c *Ctx) {
 		}
 		report(w.sc, o, false)
 	}
-	_ = known
 	// 2. main sweep: constant pool
-	n := c.N(220, 6000)
+	n := c.N(1500, 40000)
 	for i := 0; i < n; i++ {
 		sc := c13gen(c.Rng, false, c.Rng.Chance(1, 4))
 		o := c13run(c, sc)
@@ -524,7 +553,7 @@ func runC13(c *Ctx) {
 	}
 	// 3. pool changes in mid-stream (join / link loss): correspondence of the pool order and link choice;
 	//    re-orderings across a pool change are the listed finding, anything else is a violation
-	m := c.N(80, 2500)
+	m := c.N(500, 12000)
 	for i := 0; i < m; i++ {
 		sc := c13gen(c.Rng, true, false)
 		o := c13run(c, sc)
@@ -569,4 +598,3 @@ func c13Witnesses() []c13Witness {
 	}
 }
 
-func c13Known(c *Ctx) map[string]bool { return map[string]bool{} }
